@@ -302,6 +302,10 @@ EXTRA = {
     'C20': 'Array/object cells carry falsy nested items (0, False, "", [], {}, null) and the empty array / object.',
 }
 
+EXTRA3 = {'C01': " Session 3: malformed iterable links ('abc', a bare dict, a list of scalars, a malformed item after good rows) must be rejected.", 'C02': ' Session 3: Infer.tla (type inference of iterable sources over every set of <=3 of 14 Python value classes, every order of appearance; the pinned classifier is refuted), chained computed fields of one call (ChainSees), an input whose shared field has different types in its two resources, an integer field that varies inside a key group (median), a set_type pattern matching differently named fields in different resources.', 'C03': " Session 3: Missing.tla (nulls vs the schema's missingValues; typed tables carry missingValues lists), JsonCodec.tla/JsonTrace.tla (every real JSON data file is decoded by the specification's grammar-only reader, json.loads only cross-checks it), several temporal fields of one type with their own output formats, dotted resource names, resource paths inside directories.", 'C04': ' Session 3: StopIteration as exception class (row / rows functions, filter_rows, add_computed_field, set_type, sort_rows callables, sources); steps failing after ALL streams are exhausted in the main chain, in sources() sub-flows, conditionals, nested Flows and in a Flow consumed through load((descriptor, res_iter)); join target-key errors.', 'C05': ' Session 3: Printer.tla (which rows the printer shows, every case replayed; the printed tables must not depend on later steps), finalizer callbacks taking stats, observers in a Flow consumed by another Flow through load((descriptor, res_iter)) with and without resource selection, resource paths inside directories.', 'C06': ' Session 3: lazily iterated sources that know their length; a consumer that stops reading a resource early.', 'C07': 'FlowChain.tla: every bracketed pipeline (steps, checkpoints, nested Flows) x every history of runs / deletions, ideal vs implemented link absorption (known finding for nested Flows); CheckpointChain also carries failed runs; Ejson.tla TagObjects (known finding); checkpoint names that contain the temporary suffix.', 'C08': ' Session 3: a retry of the same Flow object after a failed first run.', 'C09': "Session 3: rows dropped by the dumper's own validator (drops), a second dump of other rows into the same target (same_dir_again).", 'C10': ' Session 3: the same step object used before on a rotated package (@reuse, 20% of the touch/delete/concat cases); aliasing programs for every field-adding step (add_field, add_computed_field dict/string target, unpivot).', 'C11': ' Session 3: the order/collection aggregators over the universe {0, -1, null} (NegVals).', 'C12': " Session 3: three key-string designs and ZeroFix in the spec (repairs designed there); keys of any length over an alphabet with NUL/SOH; both zeros; two resources sharing the key field's name (text in one, numbers in the other).", 'C13': ' Session 3: limit_rows exactly in front of an uncastable row under on_error=raise; the string strategies on a data package and a (descriptor, iterators) pair (nulls stay nulls); list selectors with names that look like patterns.', 'C14': ' Session 3: required constraint (the invalid value is null); invalid values that equal a valid one of another class (True/1/1.0); 5-argument handlers with a defaulted / differently named fifth parameter.', 'C15': " Session 3: falsy constants under both spellings of with; rows listing their keys in different orders; a later specification of one add_computed_field call using an earlier one's target.", 'C16': ' Session 3: in-place edits of nested values of one twin; pre-used step objects; a concatenate target named like one of the resources it replaces.', 'C17': 'Session 3: the same table as two resources of one package (per-resource state), overlapping unpivot entries, pre-used step objects.', 'C19': 'Session 3: dumps with the resource hash switched off, a package dumped again after loading it, byte-identical resources under add_filehash_to_path; a complete dump that lists missing files is a verdict.', 'C20': ' Session 3: WriterGetsCopy / PairingOK in the spec (repair designed there), histories without array/object columns, with a duration column (known finding on existing tables), and with a second table written by the same step.'}
+for _k, _v in EXTRA3.items():
+    EXTRA[_k] = (EXTRA.get(_k, '') + (_v if _v.startswith(' ') else ' ' + _v)).strip()
+
 
 def main():
     props = [json.loads(l) for l in open(os.path.join(VERIF, 'properties.jsonl'))]
